@@ -277,6 +277,25 @@ def rt_push(ctx, v):
             check_roundtrip(ctx, w, {'family': 'round trip: push sizes'})
 
 
+EXPLICIT_PUSH_SRC = ('OP_PUSH1 x', 'OP_PUSH2 x', 'OP_PUSH1 d0 x', 'OP_PUSH2 d0 x', 'OP_PUSH2 xaa', 'OP_PUSH2 d1 xaa', 'OP_PUSH1 xaa',
+                     'OP_PUSH0 x00', 'OP_PUSH0 d-1', 'OP_PUSH1 s""', 'OP_PUSH s""', 'OP_PUSH x', 'OP_PUSH1 x OP_PUSH2 x OP_PUSH1 x')
+
+
+def rt_explicit_push(ctx, src):
+    """explicitly spelled pushes, among them the zero-length and the non-minimal ones, bare and in every kind of body"""
+    try:
+        b = P_.compile_script(src + ' OP_TRUE')
+    except BaseException:
+        ctx.count('source rejected by the compiler (no round-trip claim)')
+        return
+    ctx.state((b,))
+    check_roundtrip(ctx, b, {'family': 'round trip: explicit pushes'})
+    for kinds in (('IF',), ('DEF', 'TRY1'), ('LOOP', 'IFELSE2', 'IF')):
+        w = wrap(kinds, b)
+        if w is not None:
+            check_roundtrip(ctx, w, {'family': 'round trip: explicit pushes'})
+
+
 def rt_nop(ctx, code):
     n = 0
     for cnt in range(256):
@@ -381,6 +400,8 @@ def blocks(tier, seed):
               'every byte-prefix and single-byte perturbation of every control program with <= %d nodes' % (2 if q else 3), nshards=64),
         Block('roundtrip_instructions', plain, rt_instr, 'every instruction x operand boundary values (compiler output)', nshards=len(plain)),
         Block('roundtrip_push_sizes', pv, rt_push, 'pushes on both sides of 2^7, 2^8, 2^15, 2^16, bare and nested', nshards=32),
+        Block('roundtrip_explicit_pushes', list(EXPLICIT_PUSH_SRC), rt_explicit_push,
+              'explicit PUSH0 / PUSH1 / PUSH2 spellings incl. zero-length and non-minimal operands, bare and nested', nshards=len(EXPLICIT_PUSH_SRC)),
         Block('roundtrip_nop_codes', list(range(92, 256)), rt_nop, 'every NOP code x every count byte', nshards=32),
         Block('roundtrip_control_programs', lambda s, n: spaces.progs_upto(3 if q else 4, 'full', s, n), rt_ctrl,
               'every control program of the C11 space', nshards=64),
